@@ -29,6 +29,12 @@ pub trait Sc: Copy + Clone + std::fmt::Debug {
     fn abs(self) -> Self {
         self.pl(-1.0, 1.0)
     }
+    /// True if the two numbers are known to be the same local function of the variables (used
+    /// for pool windows whose tied elements are structurally identical, e.g. a flat image
+    /// background). Only the dual-number type can tell.
+    fn same_local_fn(&self, _o: &Self) -> bool {
+        false
+    }
     fn scale(self, k: f64) -> Self {
         self.mul(Self::c(k))
     }
@@ -128,6 +134,9 @@ impl D {
 }
 
 impl Sc for D {
+    fn same_local_fn(&self, o: &D) -> bool {
+        self.v == o.v && (self.d - o.d).abs() <= 1e-12 * (1.0 + self.d.abs().max(o.d.abs()))
+    }
     fn c(v: f64) -> D {
         D { v, d: 0.0, m: 0.0, e: 0.0, de: 0.0 }
     }
@@ -510,6 +519,12 @@ pub fn layer_forward<S: Sc>(l: &RL<S>, x: &Val<S>) -> Step<S> {
                             for j in 0..kernel.1 {
                                 let p = idx3((c, h, w), ch, a * stride.0 + i, b * stride.1 + j);
                                 let v = x.d[p].v();
+                                if let Some((bp, bv)) = best {
+                                    // a tie with a structurally identical element is no tie
+                                    if v == bv && x.d[p].same_local_fn(&x.d[bp]) {
+                                        continue;
+                                    }
+                                }
                                 match best {
                                     None => best = Some((p, v)),
                                     Some((_, bv)) if v > bv => {
